@@ -3,7 +3,7 @@
    the parity of prefix `not`, the BETWEEN desugaring - is the subject of model/Parser.v and of
    the bounded-exhaustive differential test.) *)
 From Coq Require Import List ZArith Bool String.
-From FS Require Import lib.Str lib.Res gen.OpsGen gen.FieldGen gen.CmpGen model.Lexer model.Expr model.Parser proofs.C03_negate proofs.BoolRoundtrip proofs.RoundtripPfuel.
+From FS Require Import lib.Str lib.Res gen.OpsGen gen.FieldGen gen.CmpGen model.Lexer model.Expr model.Parser proofs.C03_negate proofs.ArithRoundtrip proofs.BoolRoundtrip proofs.RoundtripPfuel proofs.BoolBare.
 Import ListNotations.
 Open Scope Z_scope.
 
@@ -52,6 +52,29 @@ Theorem C03_parser_boolean_algebra : forall (asem : Field -> Op -> str -> bool),
   exists e, parse_expr_top T (mkPS (List.length pre) rp wp) = Ok (ROk (Some e), mkPS (List.length pre + List.length (render_b 0 F)) rp wp)
             /\ esem asem e = denote asem F.
 Proof. exact bool_roundtrip_pfuel. Qed.
+(* ... and with BARE BOOLEAN COLUMNS as atoms (`where is_dir`, `where not is_hidden and size > 1`): the formula language
+   extended by `BBare f` for the boolean fields of the source (Field_is_boolean_field, regenerated), rendered as the
+   single column word and denoting `f = true`.  The parser state is the one parse_main is in while it reads the WHERE
+   clause (roots parsed, where not yet parsed): the shorthand is expanded there and only there, and a prefix `not`
+   complements it *)
+Theorem C03_parser_bare_boolean : forall (asem : Field -> Op -> str -> bool),
+  (forall f o lit, asem f (Op_negate o) lit = negb (asem f o lit)) ->
+  forall F pre post, wf_bare F -> post_ok_b post ->
+  let T := (pre ++ render_bb 0 F ++ post)%list in
+  exists e, parse_expr_top T (mkPS (List.length pre) true false)
+            = Ok (ROk (Some e), mkPS (List.length pre + List.length (render_bb 0 F)) true false)
+            /\ esem asem e = denote_b asem F.
+Proof. exact bool_bare_roundtrip_pfuel. Qed.
+Theorem C03_not_bare_is_complement : forall (asem : Field -> Op -> str -> bool),
+  (forall f o lit, asem f (Op_negate o) lit = negb (asem f o lit)) ->
+  forall f pre post, Field_is_boolean_field f = true -> post_ok_b post ->
+  let T := (pre ++ [Not; RawString (field_key f)] ++ post)%list in
+  exists e, parse_expr_top T (mkPS (List.length pre) true false) = Ok (ROk (Some e), mkPS (List.length pre + 2) true false)
+            /\ esem asem e = negb (asem f OpEq (s "true"%string)).
+Proof. exact not_bare_is_complement. Qed.
+Example C03_bare_example : wf_bare ex_formula /\ post_ok_b [].
+Proof. exact bool_bare_example. Qed.
+
 (* non-vacuity: a formula with every connective meets the hypotheses *)
 Example C03_parser_example :
   wf_b (FOr (FAtom FSize OpGt (s "1"%string)) (FAnd (FNot (FParen (FOr (FAtom FSize OpLt (s "5"%string)) (FAtom FUid OpEq (s "0"%string))))) (FAtom FGid OpNe (s "7"%string))))
@@ -60,6 +83,8 @@ Proof. cbn. repeat split; discriminate. Qed.
 
 Print Assumptions C03_negate_involutive.
 Print Assumptions C03_parser_boolean_algebra.
+Print Assumptions C03_parser_bare_boolean.
+Print Assumptions C03_not_bare_is_complement.
 Print Assumptions C03_negate_complement_int.
 Print Assumptions C03_negate_complement_bool.
 Print Assumptions C03_negate_complement_date.
